@@ -359,7 +359,7 @@ pub fn run(ctx: &mut Ctx) {
                 .into(),
         ),
     );
-    let reps = ctx.tier_pick(6u64, 40);
+    let reps = ctx.tier_pick(6u64, 160);
     let mut idx = 0u64;
     for lg_k in 4..=12u8 {
         for variant in 0..4u64 {
